@@ -333,6 +333,31 @@ PlaneLaws ==
        /\ (Cardinality(IdealOn(cs.W)) = N /\ RankOf(Rows(IdealOn(cs.W))) = N /\ ~Straight(W)) => SubPole(Rows(IdealOn(cs.W))) = W
 
 (***************************************************************************)
+(* configurations                                                          *)
+(*                                                                         *)
+(* ModelNames: a model may be named by any of these enum members, or by    *)
+(* the name of any of them as a string in any letter case; every spelling  *)
+(* denotes exactly one model, and every observation with one spelling is   *)
+(* the observation with any other spelling of the same model.              *)
+(*                                                                         *)
+(* A composite object is an array of units; item assignment replaces one   *)
+(* unit (Assign), and every observation at index i is afterwards the       *)
+(* observation of the unit then stored at i, whatever was observed before. *)
+(* A unit is a projective class: Rescale by a non-zero factor (negative    *)
+(* ones included) of any of its homogeneous vectors is a stuttering step.  *)
+(***************************************************************************)
+ModelNames == [poincare |-> {"POINCARE"}, klein |-> {"KLEIN", "KLEINIAN", "AFFINE"}, halfspace |-> {"HALFSPACE", "HALFPLANE"},
+               hyperboloid |-> {"HYPERBOLOID"}, projective |-> {"PROJECTIVE"}]
+ConformalModels == {"poincare", "halfspace"}
+ASSUME /\ ConformalModels \subseteq DOMAIN ModelNames /\ DOMAIN ModelNames = Models
+       /\ \A m1, m2 \in DOMAIN ModelNames : m1 # m2 => ModelNames[m1] \cap ModelNames[m2] = {}
+       /\ \A m \in DOMAIN ModelNames : ModelNames[m] # {}
+ASSUME PrintT("MODELNAMES " \o ToJson(ModelNames))
+Assign(arr, k, unit) == [arr EXCEPT ![k] = unit]
+RescaleFactors == {<<0 - 3, 1>>, <<0 - 1, 1>>, <<0 - 1, 2>>, <<1, 3>>, <<2, 1>>}
+ASSUME \A c \in RescaleFactors : ~RIsZero(c)
+
+(***************************************************************************)
 (* emission                                                                *)
 (***************************************************************************)
 Exp == CASE IsSeg -> SegExp
